@@ -23,6 +23,8 @@ pub struct Task {
     pub bound: usize,
     /// responses become deliverable this many receive calls after the probe was sent
     pub latency: usize,
+    /// (extra hops, ttl parity) of the longer equal-cost branch; (0, _) = single path
+    pub ecmp: (u8, u8),
 }
 
 pub fn scfg(t: &Task) -> SCfg {
@@ -51,6 +53,7 @@ pub fn scfg(t: &Task) -> SCfg {
         burst: vec![],
         script: vec![],
         latency: t.latency,
+        ecmp_longer: t.ecmp,
         strategy: strat::strategy_config(t.proto, t.first_ttl, t.max_ttl, t.max_inflight, t.rounds, min_round, max_round, grace, 33434),
     }
 }
@@ -121,7 +124,11 @@ pub fn monitor(t: &Task, o: &SOutcome) -> Vec<(String, String)> {
                 bad.push(("send-after-target-found".into(), format!("round {r}: probe ttl {} sent after the target had answered in this round", s.ttl)));
             }
             // 4. never above the established target distance (stable topology)
-            if let Some(d) = dstar_prev {
+            if t.ecmp.0 > 0 {
+                // with branches of different length the tracer's knowledge of the target's distance is
+                // reset whenever a router answers at or beyond it (DESIGN.md 5): clauses 4 and 5 are
+                // stated for a stable path / an unknown distance and are not judged here
+            } else if let Some(d) = dstar_prev {
                 // responses of earlier rounds are final; within this round the minimum can only shrink
                 let d_now = delivered_before
                     .iter()
@@ -159,7 +166,7 @@ pub fn monitor(t: &Task, o: &SOutcome) -> Vec<(String, String)> {
 }
 
 pub fn task_json(t: &Task) -> Value {
-    json!({"proto": format!("{}", t.proto), "first_ttl": t.first_ttl, "max_ttl": t.max_ttl, "max_inflight": t.max_inflight, "target_distance": t.l, "rounds": t.rounds, "latency": t.latency})
+    json!({"proto": format!("{}", t.proto), "first_ttl": t.first_ttl, "max_ttl": t.max_ttl, "max_inflight": t.max_inflight, "target_distance": t.l, "rounds": t.rounds, "latency": t.latency, "ecmp": [t.ecmp.0, t.ecmp.1]})
 }
 
 pub fn task_from_json(v: &Value) -> Task {
@@ -176,6 +183,7 @@ pub fn task_from_json(v: &Value) -> Task {
         rounds: v["rounds"].as_u64().unwrap() as usize,
         bound: 0,
         latency: v["latency"].as_u64().unwrap_or(0) as usize,
+        ecmp: (v["ecmp"][0].as_u64().unwrap_or(0) as u8, v["ecmp"][1].as_u64().unwrap_or(0) as u8),
     }
 }
 
@@ -208,7 +216,15 @@ pub fn run(args: &Args) -> i32 {
                     for l in [1u8, 2, 3, 6, 0] {
                         let big = u16::from(max_ttl - first_ttl) > 8 && max_inflight > 3;
                         for latency in [0usize, 2] {
-                            tasks.push(Task { proto, first_ttl, max_ttl, max_inflight, l, rounds: 3, bound: if big { bound.min(2) } else { bound }, latency });
+                            tasks.push(Task { proto, first_ttl, max_ttl, max_inflight, l, rounds: 3, bound: if big { bound.min(2) } else { bound }, latency, ecmp: (0, 0) });
+                            // equal-cost branches of different length: the path is not stable, every
+                            // other clause still holds (in particular: nothing is sent after the
+                            // target has answered in the round)
+                            if l >= 2 && latency == 2 && max_inflight >= 2 && max_ttl > l {
+                                for ecmp in [(1u8, 0u8), (1, 1), (2, 0), (2, 1)] {
+                                    tasks.push(Task { proto, first_ttl, max_ttl, max_inflight, l, rounds: 2, bound: if big { bound.min(2) } else { bound.min(3) }, latency, ecmp });
+                                }
+                            }
                         }
                     }
                 }
@@ -298,7 +314,7 @@ pub fn run(args: &Args) -> i32 {
     rep.set("bound_completed", json!(bound));
     rep.set("horizon_hits", json!(stats.horizon_hits));
     rep.set("determinism_replays", json!(replays));
-    rep.set("rule", json!(format!("protocol {{icmp,tcp}} x first_ttl {{1,2,5,30,253,254}} x max_ttl {{1,3,6,64,254}} x max_inflight {{1,2,3,24,255}} x target distance {{1,2,3,6,silent}} x response latency {{0, 2 receive calls}}, 3 rounds: all executions of the real Strategy::run with <= {bound} deviations (delay, reorder, duplicate, loss at recv_probe; AddressInUse at send_probe for tcp, transient ProbeFailed at any send_probe); monitor on the send/receive call trace; states = nodes of the choice tree; distinct_nontrivial = distinct (send trace, publish times) digests")));
+    rep.set("rule", json!(format!("protocol {{icmp,tcp}} x first_ttl {{1,2,5,30,253,254}} x max_ttl {{1,3,6,64,254}} x max_inflight {{1,2,3,24,255}} x target distance {{1,2,3,6,silent}} x response latency {{0, 2 receive calls}} (+ equal-cost branches of different length for distances >= 2), 3 rounds: all executions of the real Strategy::run with <= {bound} deviations (delay, reorder, duplicate, loss at recv_probe; AddressInUse at send_probe for tcp, transient ProbeFailed at any send_probe); monitor on the send/receive call trace; states = nodes of the choice tree; distinct_nontrivial = distinct (send trace, publish times) digests")));
     for s in samples {
         rep.sample(s);
     }
